@@ -324,7 +324,7 @@ Proof. intros cfg st o t [R F]. split; [apply Rel_tick; exact R|exact F]. Qed.
 Lemma prop_batch_model : forall cfg brqs st o st' out rest,
   RelRun cfg st o -> run cfg (Some st) (map fst brqs) = (Some st', out) ->
   exists o',
-    prop_batch cfg o brqs (expected_resps brqs (map fst out)) (flat_map snd out ++ rest)
+    prop_batch cfg true o brqs (expected_resps brqs (map fst out)) (flat_map snd out ++ rest)
       = Some (o', rest) /\ RelRun cfg st' o'.
 Proof.
   intros cfg brqs. induction brqs as [|[rq aw] t IH]; intros st o st' out rest RR E.
@@ -402,6 +402,93 @@ Proof.
            apply (IH st2 o' st' out' rest); [exact NEXT|exact E2].
 Qed.
 
+(** what the oracle reconstructs for an unheard order is what the model would have announced *)
+Lemma synth_notifs_model : forall cfg st o req st' res n,
+  Rel cfg st o -> open_order cfg st req = ODone st' res n ->
+  synth_notifs cfg o req res =
+    (match n with Some x => [(n_asset x, n_bal x)] | None => [] end,
+     match n with Some x => [n_trade x] | None => [] end).
+Proof.
+  intros cfg st o req st' res n R E.
+  pose proof (notif_iff_accepted _ _ _ _ _ _ E) as NA.
+  destruct n as [x|].
+  - destruct (accepted_notif _ _ _ _ _ _ E) as [a [b [S [B [_ [Hres [Hn Hst]]]]]]].
+    cbn in Hres, Hn, Hst. subst res x st'. unfold synth_notifs. rewrite S.
+    assert (STEP : spec_step cfg (os_led o) req a = spec_step cfg (abs_ledger st) req a)
+      by (apply spec_step_ext; exact (rel_led _ _ _ R)).
+    destruct (step_refines cfg st req (rel_wf _ _ _ R)) as [st2 [res2 [n2 [E2 [_ SS]]]]].
+    rewrite E in E2. inversion E2; subst st2 res2 n2.
+    rewrite STEP, <- SS. unfold abs_ledger. cbn [s_bals debited].
+    erewrite lookup_set_same by eassumption. cbn. reflexivity.
+  - assert (A : accepted res = false).
+    { destruct (accepted res); [|reflexivity]. exfalso. apply (proj1 NA); reflexivity. }
+    destruct res as [? ? ?|e]; [discriminate|]. reflexivity.
+Qed.
+
+Lemma prop_batch_model_nosub : forall cfg brqs st o st' out rest,
+  batch_ok (false, brqs) = true ->
+  RelRun cfg st o -> run cfg (Some st) (map fst brqs) = (Some st', out) ->
+  exists o',
+    prop_batch cfg false o brqs (expected_resps brqs (map fst out)) rest = Some (o', rest)
+    /\ RelRun cfg st' o'.
+Proof.
+  intros cfg brqs. induction brqs as [|[rq aw] t IH]; intros st o st' out rest OK RR E.
+  - cbn in E. inversion E; subst. cbn. exists o. split; [reflexivity|exact RR].
+  - cbn [map fst] in E. rewrite run_cons in E.
+    pose proof RR as [R F].
+    unfold batch_ok in OK. cbn [fst snd orb forallb] in OK.
+    apply andb_true_iff in OK. destruct OK as [OK1 OK2].
+    assert (OKt : batch_ok (false, t) = true) by exact OK2.
+    destruct (run_request_alive cfg st rq (rel_wf _ _ _ R)) as [st1 [resp [evs [E1 W1]]]].
+    rewrite E1 in E. destruct (run cfg (Some st1) (map fst t)) as [ost2 out'] eqn:E2.
+    inversion E; subst ost2 out. clear E.
+    unfold expected_resps. cbn [map combine fst snd prop_batch].
+    fold (expected_resps t (map fst out')).
+    pose proof (RelRun_tick cfg st o (rq_time rq) RR) as [R1 F1].
+    set (st0 := tick cfg st (rq_time rq)) in *.
+    unfold run_request in E1. cbv zeta in E1. fold st0 in E1.
+    destruct (rq_kind rq) as [| | |since| |req] eqn:K.
+    + injection E1 as <- <- <-. destruct aw.
+      * match goal with |- context [ledger_is o ?l] =>
+          replace (ledger_is o l) with true by (symmetry; exact (Rel_ledger_is _ _ _ R1)) end.
+        apply (IH st0 o st' out' rest); [exact OKt|split; assumption|exact E2].
+      * apply (IH st0 o st' out' rest); [exact OKt|split; assumption|exact E2].
+    + injection E1 as <- <- <-. destruct aw.
+      * match goal with |- context [ledger_is o ?l] =>
+          replace (ledger_is o l) with true by (symmetry; exact (Rel_ledger_is _ _ _ R1)) end.
+        apply (IH st0 o st' out' rest); [exact OKt|split; assumption|exact E2].
+      * apply (IH st0 o st' out' rest); [exact OKt|split; assumption|exact E2].
+    + injection E1 as <- <- <-.
+      destruct aw; apply (IH st0 o st' out' rest); try exact OKt; try (split; assumption); exact E2.
+    + injection E1 as <- <- <-. destruct aw.
+      * unfold trades_since. rewrite F1, trades_eqb_refl.
+        apply (IH st0 o st' out' rest); [exact OKt|split; assumption|exact E2].
+      * apply (IH st0 o st' out' rest); [exact OKt|split; assumption|exact E2].
+    + injection E1 as <- <- <-.
+      destruct aw; apply (IH st0 o st' out' rest); try exact OKt; try (split; assumption); exact E2.
+    + (* open: awaited, by [batch_ok] *)
+      cbn [fst snd] in OK1. rewrite orb_false_r in OK1. subst aw.
+      destruct (no_panic cfg st0 req (rel_wf _ _ _ R1)) as [st2 [res [n O]]].
+      rewrite O in E1.
+      destruct (oracle_open_model cfg st0 o req st2 res n R1 O) as [o' [OO [R2 FF]]].
+      pose proof (synth_notifs_model cfg st0 o req st2 res n R1 O) as SY.
+      assert (ON : oracle_open_nosub cfg o req res = Some o').
+      { unfold oracle_open_nosub. rewrite SY. cbn [fst snd]. exact OO. }
+      destruct n as [x|].
+      * injection E1 as <- <- <-. rewrite ON.
+        apply (IH (ack_trade st2 (n_trade x)) o' st' out' rest); [exact OKt| |exact E2].
+        destruct (accepted_notif _ _ _ _ _ _ O) as [a [b [_ [_ [_ [_ [_ Hst]]]]]]].
+        split.
+        -- eapply Rel_same_ledger; try exact R2; try reflexivity; auto.
+        -- rewrite FF, F1. cbn [ack_trade s_trades]. rewrite Hst. reflexivity.
+      * injection E1 as <- <- <-. rewrite ON.
+        apply (IH st2 o' st' out' rest); [exact OKt| |exact E2].
+        split; [exact R2|]. rewrite FF, app_nil_r, F1.
+        pose proof (notif_iff_accepted _ _ _ _ _ _ O) as NA.
+        destruct res as [? ? ?|e]; [exfalso; apply (proj1 NA); reflexivity|].
+        destruct (reject_frame _ _ _ _ _ _ O) as [-> _]. reflexivity.
+Qed.
+
 Lemma resps_eqb_eq : forall a b,
   list_eqb (pair_eqb (option_eqb request_eqb) rresp_eqb) a b = true -> a = b.
 Proof.
@@ -409,19 +496,27 @@ Proof.
 Qed.
 
 Lemma corr_prop_run : forall cfg bs os st o,
+  forallb batch_ok bs = true ->
   RelRun cfg st o -> corr_run cfg (Some st) bs os = true -> prop_run cfg o bs os = true.
 Proof.
-  intros cfg bs. induction bs as [|brqs bs' IH]; intros [|ob os'] st o RR C; cbn [corr_run] in C;
-    try discriminate.
+  intros cfg bs. induction bs as [|[sub brqs] bs' IH]; intros [|ob os'] st o OK RR C;
+    cbn [corr_run] in C; try discriminate.
   - reflexivity.
   - pose proof RR as [R F].
+    cbn [forallb] in OK. apply andb_true_iff in OK. destruct OK as [OKb OKs].
     destruct (run_alive cfg (map fst brqs) st (rel_wf _ _ _ R)) as [st1 [out [E W1]]].
     cbv zeta in C. rewrite E in C. cbn [option_map] in C.
     split_andb.
     match goal with H : list_eqb _ _ (ro_resps ob) = true |- _ => apply resps_eqb_eq in H; rename H into HR end.
     match goal with H : events_eqb _ _ = true |- _ => apply events_eqb_eq in H; rename H into HE end.
-    destruct (prop_batch_model cfg brqs st o st1 out [] RR E) as [o' [PB RR']].
-    rewrite app_nil_r in PB.
+    assert (PBX : exists o', prop_batch cfg sub o brqs (expected_resps brqs (map fst out))
+                                 (if sub then flat_map snd out else []) = Some (o', [])
+                             /\ RelRun cfg st1 o').
+    { destruct sub.
+      - destruct (prop_batch_model cfg brqs st o st1 out [] RR E) as [o' [PB RR']].
+        rewrite app_nil_r in PB. eauto.
+      - exact (prop_batch_model_nosub cfg brqs st o st1 out [] OKb RR E). }
+    destruct PBX as [o' [PB RR']].
     cbn [prop_run]. rewrite <- HR, <- HE, PB.
     match goal with H : snap_matches _ _ _ = true |- _ => rename H into HS end.
     unfold snap_matches in HS.
@@ -433,7 +528,7 @@ Proof.
     pose proof (RelRun_tick cfg st1 o' (last_time (map fst brqs) 0%Z) RR') as [R2 F2].
     rewrite (Rel_ledger_is _ _ _ R2). cbn [andb].
     rewrite F2, trades_eqb_refl. cbn [andb].
-    eapply IH; [split; eassumption|eassumption].
+    eapply IH; [exact OKs|split; eassumption|eassumption].
 Qed.
 
 (** The oracle is no stricter than the model. *)
@@ -441,7 +536,7 @@ Theorem corr_implies_prop : forall c, in_domain c = true -> corr_b c = true -> p
 Proof.
   intros [cfg init ops os|cfg init bs os] D C; cbn in D, C |- *; split_andb.
   - eapply corr_prop_direct; [|exact C]. apply Rel_init; assumption.
-  - eapply corr_prop_run; [|exact C]. split; [apply Rel_init; assumption|reflexivity].
+  - eapply corr_prop_run; [eassumption| |exact C]. split; [apply Rel_init; assumption|reflexivity].
 Qed.
 Print Assumptions corr_implies_prop.
 
